@@ -23,7 +23,7 @@ ASSUMPTIONS = [
 
 
 def plan(tier):
-    return {"n_random": 400 if tier == "quick" else 8000, "time_s": 700 if tier == "quick" else 1750, "shrink_evals": 30 if tier == "quick" else 200}
+    return {"n_random": 600 if tier == "quick" else 8000, "time_s": 700 if tier == "quick" else 1750, "shrink_evals": 30 if tier == "quick" else 200}
 
 
 @st.composite
